@@ -162,9 +162,12 @@ example : arrayDesignator 3 [.idx (-1)] = .error (.diag "array designator index 
     arrayDesignator 3 [.range 1 3] = .error (.diag "array designator index exceeds array bounds") ∧
     arrayDesignator 3 [.range 1 2, .eq] = .ok (1, 2, [.eq]) := by decide
 
-/-- open: the standard budget of `parseInit` is never exhausted (the C parser terminates on every token list).  C05 proves
-    monotonicity in the budget (`C05_fuel_mono`); sufficiency of `stdFuel` for all inputs is not proved. -/
-def C13_init_no_hang_Statement : Prop := ∀ (ty : Ty) (toks : List ITok), parseInit ty toks ≠ .error .fuel
+/- The standard budget of `parseInit` is never exhausted (the C parser terminates on every token list):
+   `∀ ty toks, parseInit ty toks ≠ .error .fuel` — formerly the open statement `C13_init_no_hang_Statement` of this file — is proved
+   as `C13_init_no_hang` in Props/C13InitHang.lean (induction: Lemmas/C13InitFuel.lean), together with the explicit bound
+   `needFuel ty toks = 2·|toks| + wt ty ≤ 2·|toks| + 4·nodes ty ≤ stdFuel ty toks` (`C13_init_fuel_bound`), independence of the
+   answer from the budget beyond it (`C13_init_answer_stable`, with C05's monotonicity) and totality of `parseInit` on
+   `tyOK`/`toksOK` inputs (`C13_parseInit_total`). -/
 
 end Init
 
